@@ -1,19 +1,6 @@
-import Lp.Py
+import Lp.CanonDefs
 /-! Probe: decimal printing and Python `int()` round trip, on bytes. -/
 namespace Py
-
-/-- a decimal digit byte -/
-def digitByte (d : Nat) : UInt8 := (48 + d % 10).toUInt8
-
-/-- digits of `n`, most significant first; `fuel` bounds the recursion -/
-def natBytesAux : Nat → Nat → Bytes → Bytes
-  | 0, _, acc => acc
-  | fuel + 1, n, acc =>
-    if n / 10 = 0 then digitByte n :: acc else natBytesAux fuel (n / 10) (digitByte n :: acc)
-
-def natBytes (n : Nat) : Bytes := natBytesAux (n + 1) n []
-
-def intBytes (i : Int) : Bytes := if i < 0 then 45 :: natBytes (-i).toNat else natBytes i.toNat
 
 /-- value of a digit string read onto an accumulator -/
 def readDigits (acc : Nat) : Bytes → Nat
